@@ -46,7 +46,7 @@ def check(ctx):
         "clockwise order, ValueError iff empty or unset). non-trivial = every case; distinct by generated case")
     proved = ctx.prove("props/C18.v", ["proofs/PlotsFacts.v"])
     ctx.build(["model/Plots.vo"])
-    n = (200 if ctx.quick else 3000) * (1 if proved else 3)
+    n = (200 if ctx.quick else 20000) * (1 if proved else 3)
     summary, (cases, recs, digs) = pc.selftest(n, ctx.seed + 18, verbose=False)
     ctx.count(n, len({repr(c) for c in cases}))
     ctx.notes["correspondence"] = {k: summary[k] for k in ("branches", "kinds", "corners_histogram", "outcomes", "on_cut_cases",
